@@ -15,6 +15,9 @@ pub struct RecTracer {
     pub log: Log,
     /// record method enter/exit, arguments and results too
     pub verbose: bool,
+    /// sleep this long when `interpret` is entered (widens the window in which a session is
+    /// registered with the executor but has not started to run)
+    pub start_delay_ms: u64,
 }
 
 impl Debug for RecTracer {
@@ -26,7 +29,7 @@ impl Debug for RecTracer {
 impl RecTracer {
     pub fn new(verbose: bool) -> (RecTracer, Log) {
         let log: Log = Arc::new(Mutex::new(Vec::new()));
-        (RecTracer { log: log.clone(), verbose }, log)
+        (RecTracer { log: log.clone(), verbose, start_delay_ms: 0 }, log)
     }
     fn push(&self, s: String) {
         let mut g = self.log.lock().unwrap_or_else(|e| e.into_inner());
@@ -55,6 +58,9 @@ impl Tracer for RecTracer {
         true
     }
     fn enter_method(&self, what: &str) {
+        if self.start_delay_ms > 0 && what == "interpret" {
+            std::thread::sleep(Duration::from_millis(self.start_delay_ms));
+        }
         if self.verbose {
             self.push(format!("m> {}", what));
         }
